@@ -1,4 +1,5 @@
 SPECIFICATION Spec
+CONSTANT AlphaSel = "A"
 CONSTANT StepBound = 60
 CONSTANT MaxToks = 3
 INVARIANT StatusOK
